@@ -76,6 +76,11 @@ static void s_reset(void) {
     s_in_call = false;
 }
 
+/* the library's own validity predicate (ring_buffer.inl), an observation point of the property */
+static void s_print_valid(void) {
+    printf("P valid=%d\n", (int)aws_ring_buffer_is_valid(&s_ring));
+}
+
 static void s_after_acquire(int rc, struct aws_byte_buf *dest) {
     s_call_end();
     if (rc == AWS_OP_SUCCESS) {
@@ -101,6 +106,7 @@ static void s_after_acquire(int rc, struct aws_byte_buf *dest) {
         printf("P acq %s\n", hc_last_error_name());
     }
     printf("P outstanding=%zu\n", s_head_idx - s_tail_idx);
+    s_print_valid();
 }
 
 int main(void) {
@@ -115,6 +121,7 @@ int main(void) {
             s_reset();
             HC_CHECK(aws_ring_buffer_init(&s_ring, hc_allocator(), hc_parse_size(t[1])) == AWS_OP_SUCCESS);
             s_have = true;
+            s_print_valid();
         } else if (!s_have) {
             printf("bad-op\n");
         } else if (!strcmp(t[0], "acq") && n == 4) {
@@ -132,6 +139,7 @@ int main(void) {
         } else if (!strcmp(t[0], "rel") && n == 1) {
             s_release_oldest();
             printf("P outstanding=%zu\n", s_head_idx - s_tail_idx);
+            s_print_valid();
         } else {
             printf("bad-op\n");
         }
